@@ -137,6 +137,10 @@ SIBLINGS = ["a", "ab", "a_b", "aa", "b", "c", "x"]
 def trees(draw, root="q", max_modules=14, max_depth=4, siblings=SIBLINGS, min_modules=3):
     """Random module tree as a sorted list of dotted names (closed under parents)."""
     mods = [root]
+    if draw(st.integers(0, 9)) == 0:
+        # a tenth of the trees are taller and larger than the caller asked for (up to 3 more levels, half as many modules
+        # again): behaviour that depends on depth or size shows up in every check that draws its trees here
+        max_depth, max_modules = max_depth + 3, max_modules + max_modules // 2
     target = draw(st.integers(min_modules, max_modules))
     frontier = [root]
     while len(mods) < target:
@@ -227,10 +231,10 @@ def related_rule(draw, tree, max_s=3, max_o=3):
 
 
 @st.composite
-def forests(draw, root="q", max_modules=14, extra=("x", "x.y", "x.y.z", "lib", "lib.u")):
+def forests(draw, root="q", max_modules=14, extra=("x", "x.y", "x.y.z", "lib", "lib.u"), max_depth=4):
     """A tree plus, in a third of the draws, some single-component top-level modules with descendants
     (what an architecture with included external libraries looks like)."""
-    tree = draw(trees(root=root, max_modules=max_modules))
+    tree = draw(trees(root=root, max_modules=max_modules, max_depth=max_depth))
     if draw(st.integers(0, 2)) == 0:
         add = draw(st.lists(st.sampled_from(list(extra)), min_size=1, max_size=3, unique=True))
         tree = sorted(M.closure(set(tree) | set(add)))
@@ -302,9 +306,12 @@ def rule_focus(tree, rule) -> set:
 
 @st.composite
 def rule_cases(draw, root="q", max_modules=14):
-    tree = draw(forests(root=root, max_modules=max_modules))
+    # an eighth of the cases are larger than the rest: up to 22 modules, 7 levels deep, batches of up to 5
+    big = draw(st.integers(0, 7)) == 0
+    tree = draw(forests(root=root, max_modules=20 if big else max_modules, max_depth=6 if big else 4))
+    n = 5 if big else 3
     # a fifth of the rules have a subject that is the same module as / above / below one of the objects
-    rule = draw(related_rule(tree)) if draw(st.integers(0, 4)) == 0 else draw(unrelated_rule(tree))
+    rule = draw(related_rule(tree, max_s=n, max_o=n)) if draw(st.integers(0, 4)) == 0 else draw(unrelated_rule(tree, max_s=n, max_o=n))
     imports = draw(import_relation(tree, focus=rule_focus(tree, rule)))
     spec = {"tree": tree, "imports": [list(e) for e in imports], "rule": rule}
     if not rule.get("anything") and draw(st.integers(0, 5)) == 0:
